@@ -54,6 +54,25 @@ CLAIMED = {
               "Deep snapshots (structure, bytes of every leaf, copies of reachable dicts) of params, batch, loss and generator "
               "before/after evaluate()/get_batch() must be identical; repeated calls bit-identical; eager vs jit vs primal of "
               "value_and_grad within rtol 1e-9; get_batch eager vs jit exact.", "4/C20"),
+    "C08": _c("Hypothesis-generated generator configurations + exhaustive enumeration of grid counts, validity predicates",
+              "Counts, shapes, closed-interval membership, facet geometry and 1-D end points of every generator kind over "
+              "random boxes (negative, tiny, large), sizes, keys, methods and get_batch histories across reshuffles, in float32 "
+              "and x64; grid counts enumerated for every n<=120/300 on 8 intervals.", "4/C08"),
+    "C14": _c("Hypothesis-generated space-time configurations; structural predicate + differential against the factors",
+              "Interior and per-facet border batches vs the product (time-major) or pairing of the temporal / spatial / "
+              "border factors drawn from the same generator state, over histories of batches.", "4/C14"),
+    "C15": _c("Hypothesis-generated tables with injective row encodings; row-identity oracle",
+              "Observation batches (inputs, values, observed parameters) must come from one table row; parameter samples "
+              "per key from its own range or table (both shapes, table wins); multi-network loaders aligned per network "
+              "with empty entries for networks without observations.", "4/C15"),
+    "C16": _c("Hypothesis-generated RAR configurations driven iteration by iteration against a python schedule model",
+              "Schedule (start + k*update_every), counts n_start + J*selected per axis, rar_iter_nb, capacity stop, never "
+              "above the store, observed after every iteration and through jinns.solve.", "4/C16"),
+    "C17": _c("Hypothesis-generated RAR histories; per-step oracle from store snapshots and recomputed closed-form residuals",
+              "Per refinement step: candidates in the domain, reported residuals == recomputed, chosen == arg-top-k "
+              "(components of top pairs for product domains), written points == chosen candidates, active slots untouched, "
+              "active multiset preserved across reshuffles.", "4/C17",
+              note="candidates are exposed by the guarded hook JINNS_VERIF=1 and re-validated by the harness."),
     "C12": _c("Hypothesis-generated parameter batches / heterogeneity maps against a per-sample numpy loop",
               "Every term of single losses with any non-empty subset of batched keys vs per-sample reference; caller's "
               "parameters unchanged; heterogeneous keys replaced inside the dynamic term only; gradient w.r.t. an "
@@ -121,7 +140,7 @@ def main():
         print("jsonschema not available; manifest written", len(checks), len(na))
 
 
-HOOK_COMMITS = []
+HOOK_COMMITS = ["0ed4b87"]
 
 if __name__ == "__main__":
     main()
